@@ -12,6 +12,9 @@ package main
 //	    rs=1|2: the encoder is NOT new: it was first used on another (write-at) destination — 1: a complete sequence,
 //	    2: an interrupted one (stream: a message without SequenceCompleted; batch: an Encode that failed half-way) — and then
 //	    handed the destination with Reset(w, opts…). The model's answer is that of a new encoder: Reset = New.
+//	    ro=<pv>.<arch>.<hopt>.<lmt>.<v>.<bs>.<kind>: the options and the destination kind of that FIRST use (default: the
+//	    options of the run itself, an unbuffered write-at destination) — every option the encoder keeps in a field differs
+//	    from the run being compared; the model ignores it: bytes depend on the messages and on the options of THIS use only.
 //	    ap=1: the destination behaves like an *os.File opened with O_APPEND: every Write lands at the END whatever the
 //	    position is (third caveat of encoder.New: "behavior not specified"; kinds plain/seek/both; properties n/a). The model's
 //	    answer: the same operations, replayed with Dest.runAppend.
@@ -268,6 +271,7 @@ type wrCfg struct {
 	pre              []byte
 	pos              int // position of the destination when the encoder gets it
 	reuse            int // rs=
+	first            *wrCfg // ro=: options and destination kind of the first use of a reused encoder
 	app              bool // ap=1
 	faults           map[int]int
 	shorts           map[int]int
@@ -296,6 +300,13 @@ func wrParse(args []string) (*wrCfg, bool) {
 	}
 	if c.app && c.kind == "at" {
 		return nil, false
+	}
+	if ro, ok := kv["ro"]; ok {
+		t := strings.Split(ro, ".")
+		if len(t) != 7 {
+			return nil, false
+		}
+		c.first = &wrCfg{pv: atoi(t[0]), arch: atoi(t[1]), hopt: atoi(t[2]), lmt: atoi(t[3]), v: atoi(t[4]), bs: atoi(t[5]), kind: t[6]}
 	}
 	c.pos = len(c.pre)
 	if p, ok := kv["pos"]; ok {
@@ -398,8 +409,10 @@ func wrRunS(c *wrCfg, faults, shorts map[int]int) (o wrOut, bad bool) {
 		var err error
 		if c.reuse > 0 {
 			// a used stream encoder: another destination first, then Reset to this one
-			warmFit, _ := wrWarmFile.toProto(byte(c.arch))
-			se, err = encoder.NewStream(wrAt{&wrDest{}}, c.options()...)
+			fc := c.firstUse()
+			warmFit, _ := wrWarmFile.toProto(byte(fc.arch))
+			ww, _ := wrNewDest(fc.kind, nil, 0, nil)
+			se, err = encoder.NewStream(ww, fc.options()...)
 			if err == nil {
 				_ = se.WriteMessage(&warmFit.Messages[0])
 				if c.reuse == 1 {
@@ -433,12 +446,17 @@ func wrRunS(c *wrCfg, faults, shorts map[int]int) (o wrOut, bad bool) {
 		var enc *encoder.Encoder
 		if c.reuse > 0 {
 			// a used encoder: another destination first (rs=2: one that fails during the records), then Reset to this one
-			warmFit, _ := wrWarmFile.toProto(byte(c.arch))
-			wd := &wrDest{}
+			fc := c.firstUse()
+			warmFit, _ := wrWarmFile.toProto(byte(fc.arch))
+			ww, wd := wrNewDest(fc.kind, nil, 0, nil)
 			if c.reuse == 2 {
-				wd.faults = map[int]int{1: 3}
+				// the first operation that carries record bytes fails: 1 when unbuffered, the flush (0) behind a large buffer
+				wd.faults = map[int]int{0: 17, 1: 3}
+				if fc.bs <= 0 || fc.bs < 14 {
+					wd.faults = map[int]int{1: 3}
+				}
 			}
-			enc = encoder.New(wrAt{wd}, append(c.options(), encoder.WithWriteBufferSize(0))...)
+			enc = encoder.New(ww, fc.options()...)
 			_ = enc.Encode(warmFit)
 			enc.Reset(w, c.options()...)
 		} else {
@@ -460,6 +478,16 @@ func wrRunS(c *wrCfg, faults, shorts map[int]int) (o wrOut, bad bool) {
 	}
 	o.log, o.out, o.raw = d.log, d.buf, d.raw
 	return o, false
+}
+
+// firstUse: the configuration of the first use of a reused encoder (ro=; default: this run's options, unbuffered write-at)
+func (c *wrCfg) firstUse() *wrCfg {
+	if c.first != nil {
+		return c.first
+	}
+	fc := *c
+	fc.kind, fc.bs = "at", 0
+	return &fc
 }
 
 // wrWarmFile: what a reused encoder wrote to its first destination (rs=)
@@ -801,7 +829,14 @@ func wrReuse(rng *Rng) string {
 		return ""
 	}
 	count("reused-encoder")
-	return fmt.Sprintf(" rs=%d", 1+rng.Intn(2))
+	rs := 1 + rng.Intn(2)
+	if rng.Intn(4) == 0 { // same options as the run, unbuffered write-at destination
+		return fmt.Sprintf(" rs=%d", rs)
+	}
+	// the first use under its own options: every option the encoder keeps, and another destination kind / buffer size
+	count("reused-encoder-other-options")
+	return fmt.Sprintf(" rs=%d ro=%d.%d.%d.%d.%d.%d.%s", rs, []int{0x20, 0x20, 0x10, 0, 0x21}[rng.Intn(5)], rng.Intn(2), rng.Intn(2), rng.Intn(16),
+		rng.Intn(2), wrRandSize(rng), wrKinds[1+rng.Intn(3)])
 }
 
 // wrPos: now and then a pre-filled destination is NOT positioned at its end (token " pos=<n>", else "")
